@@ -288,5 +288,9 @@ int main(int argc, char **argv)
     }
     else printf("unknown\n");
   }
+  if (setjmp(jb)) return 0;
+  jpeg_destroy_compress(&cc);
+  jpeg_destroy_decompress(&dc);
+  free(base_jpeg); free(xs); free(line);
   return 0;
 }
